@@ -235,6 +235,12 @@ func (dw *DiskWriter) requestAsyncFileData(p, dest string, fi os.FileInfo, st *t
 		}); err != nil {
 			return err
 		}
+		if os.FileMode(st.Mode)&(os.ModeSetuid|os.ModeSetgid) != 0 {
+			// writing the content without privileges clears these bits
+			if err := os.Chmod(dest, os.FileMode(st.Mode)); err != nil {
+				return errors.WithStack(err)
+			}
+		}
 		return chtimes(dest, st.ModTime) // TODO: parent dirs
 	})
 }
